@@ -15,6 +15,37 @@ class ModErr(Exception):
     pass
 
 
+class SlowRebuild:
+    """a value that takes a while to rebuild wherever it is unpickled (the parent of a process / remote worker)"""
+    def __init__(self, x):
+        self.x = x
+
+    def __eq__(self, o):
+        return type(o) is type(self) and o.x == self.x
+
+    def __getstate__(self):
+        return {'x': self.x}
+
+    def __setstate__(self, st):
+        import time
+        time.sleep(1.5)
+        self.__dict__.update(st)
+
+
+class SlowRebuildErr(Exception):
+    def __init__(self, *a):
+        super().__init__(*a)
+
+    def __reduce__(self):
+        return (_rebuild_slow_err, self.args)
+
+
+def _rebuild_slow_err(*args):
+    import time
+    time.sleep(1.5)
+    return SlowRebuildErr(*args)
+
+
 SIZES = {'b0': 0, 'b1': 1, 'b4k': 4096, 'b64k-1': 65535, 'b64k': 65536, 'b64k+1': 65537, 'b256k': 262144, 'b1m': 1 << 20, 'b4m': 4 << 20}
 
 
@@ -26,7 +57,7 @@ def make_value(key):
         'none': None, 'zero': 0, 'false': False, 'empty_str': '', 'empty_list': [], 'empty_dict': {}, 'float': 0.0,
         'int': 12345678901234567890, 'str': 'héllo', 'tuple': (1, (2, 3), 'x'),
         'nested': {'a': [1, 2, {'b': (None, False)}], 'c': {1, 2}, 'd': b'\x00\xff'},
-        'point': Point(1, [2, 3]), 'points': [Point(0, 0), Point(1, 1)],
+        'point': Point(1, [2, 3]), 'points': [Point(0, 0), Point(1, 1)], 'slowreb': SlowRebuild(5),
         'datetime': datetime.datetime(2020, 1, 2, 3, 4, 5), 'decimal': decimal.Decimal('1.50'),
     }[key]
 
@@ -36,6 +67,8 @@ def mod_value(key):
 
 
 def mod_raise(key):
+    if key == 'slowreb_err':
+        raise SlowRebuildErr('slow', 7)
     if key == 'value_err':
         raise ValueError('a', 1)
     if key == 'key_err':
